@@ -891,7 +891,7 @@ def run(tier, seed, replay=None, scale=1.0):
         part.sig("replay", 0)
         r.merge(part)
         return r.finish()
-    total = int((128 if tier == "quick" else 4000) * scale)
+    total = int((128 if tier == "quick" else 2400) * scale)
     per = max(1, total // 16)
     nn = max(1, int((32 if tier == "quick" else 800) * scale))
     shards = [(seed, i, per) for i in range(16)] + [("nonce", seed, i, max(1, nn // 8)) for i in range(8)]
